@@ -756,33 +756,35 @@ def _own_class(val):
     return None
 
 
-def culprit(msg, tmpl, exc):
+def culprit(msg, tmpl, exc, orig_vals=None):
     """which variable type a raised exception is about: found by replaying the per-variable steps one at a time
-    (first the template-directed packers, then the LLSD formatter on each value alone)"""
+    (first the template-directed packers, then the LLSD formatter on each value alone) - on the values the message
+    had when the check started and, if those are all fine, on the values it holds now"""
     from hippolyzer.lib.base import llsd
     from hippolyzer.lib.base.message.data_packer import LLSDDataPacker
     by_block = {tb.name: {tv.name: tv.type for tv in tb.variables} for tb in tmpl.blocks}
-    try:
-        packed = []
-        for bn, bl in msg.blocks.items():
-            for b in bl:
-                for vn, val in b.vars.items():
-                    t = by_block.get(bn, {}).get(vn)
-                    pv = val
-                    if t in LLSDDataPacker.SPECS:
-                        try:
-                            pv = LLSDDataPacker.pack(val, t)
-                            LLSDDataPacker.unpack(pv, t)
-                        except Exception:  # noqa
-                            return t.name
-                    packed.append((t, val, pv))
-        for t, val, pv in packed:
-            try:
-                llsd.parse_xml(llsd.format_xml(pv))
-            except Exception:  # noqa
-                return _own_class(val) or (t.name if t is not None else type(val).__name__)
-    except Exception:  # noqa
-        pass
+    now = [(bn, vn, val) for bn, bl in msg.blocks.items() for b in bl for vn, val in b.vars.items()]
+    first = [(bn, vn, val) for (bn, _i, vn), val in orig_vals.items()] if orig_vals else []
+    for vals in (first, now):
+        try:
+            packed = []
+            for bn, vn, val in vals:
+                t = by_block.get(bn, {}).get(vn)
+                pv = val
+                if t in LLSDDataPacker.SPECS:
+                    try:
+                        pv = LLSDDataPacker.pack(val, t)
+                        LLSDDataPacker.unpack(pv, t)
+                    except Exception:  # noqa
+                        return t.name
+                packed.append((t, val, pv))
+            for t, val, pv in packed:
+                try:
+                    llsd.parse_xml(llsd.format_xml(pv))
+                except Exception:  # noqa
+                    return _own_class(val) or (t.name if t is not None else type(val).__name__)
+        except Exception:  # noqa
+            pass
     return type(exc).__name__
 
 
@@ -811,7 +813,7 @@ def check_message(msg, tmpl, ser, fails, stats, origin, with_eq):
         try:
             return True, fn()
         except Exception as ex:  # noqa
-            c = culprit(msg, tmpl, ex)
+            c = culprit(msg, tmpl, ex, orig_vals)
             if (c, type(ex).__name__) not in reported:  # one report per cause and message, at the first stage it shows
                 reported.add((c, type(ex).__name__))
                 fails.add(f"{area}/raise/{c}/{name}", f"a templated message converts to its LLSD form and back without error ({name})",
